@@ -52,13 +52,11 @@ def solve_inproc(constraints, timeout_ms, want=None):
     """-> (status, model_dict|None, seconds). want: dict name->z3 var to report"""
     s = z3.Solver()
     s.set('timeout', int(timeout_ms))
+    s.set('rlimit', int(timeout_ms) * 20000)
     for c in constraints:
         s.add(c)
     t = time.time()
-    try:
-        r = s.check()
-    except z3.Z3Exception as e:
-        return 'unknown', None, time.time() - t
+    r = guarded_check(s, timeout_ms)
     dt = time.time() - t
     if r == z3.unsat:
         return 'unsat', None, dt
@@ -73,8 +71,60 @@ def solve_inproc(constraints, timeout_ms, want=None):
     return 'unknown', None, dt
 
 
+def guarded_check(s, timeout_ms):
+    """z3 check() with a watchdog: z3's own timeout is not always honoured inside nlsat; interrupt() is"""
+    import threading
+    done = threading.Event()
+
+    def fire():
+        if not done.is_set():
+            try:
+                s.interrupt()
+            except Exception:
+                pass
+    tm = threading.Timer(timeout_ms / 1000.0 + 0.4, fire)
+    tm.daemon = True
+    tm.start()
+    try:
+        try:
+            return s.check()
+        except z3.Z3Exception:
+            return z3.unknown
+    finally:
+        done.set()
+        tm.cancel()
+        tm.join()          # the solver object must outlive a callback that is already running
+
+
 def cvc5_inproc(constraints, timeout_ms):
-    """cvc5 (python wheel) on the SMT-LIB rendering of the constraints. Only the verdict is used (no model)."""
+    """cvc5 on the SMT-LIB rendering of the constraints, as a subprocess that is killed at the deadline (the in-process
+    wheel does not always honour tlimit). Only the verdict is used (no model)."""
+    t = time.time()
+    binp = BINS.get('cvc5')
+    if binp is None:
+        return 'unknown', 0.0
+    fn = None
+    try:
+        txt = '(set-logic ALL)\n' + to_smt2(constraints) + '(check-sat)\n'
+        fd, fn = tempfile.mkstemp(suffix='.smt2')
+        with os.fdopen(fd, 'w') as f:
+            f.write(txt)
+        p = subprocess.run([binp, f'--tlimit={max(50, int(timeout_ms))}', fn], capture_output=True, text=True,
+                           timeout=timeout_ms / 1000.0 + 1.0)
+        first = p.stdout.strip().split('\n')[0].strip() if p.stdout.strip() else ''
+        st = first if first in ('sat', 'unsat') else 'unknown'
+    except Exception:
+        st = 'unknown'
+    finally:
+        if fn:
+            try:
+                os.unlink(fn)
+            except OSError:
+                pass
+    return st, time.time() - t
+
+
+def _cvc5_wheel_inproc(constraints, timeout_ms):
     try:
         import cvc5
     except ImportError:
